@@ -269,7 +269,26 @@ class TeeRun:
                     inflight[0] -= 1
 
         n = c["n"]
-        its = list(ait.tee(Source() if c["async_src"] else list(seq), n))
+        stack = c.get("stack")
+        want = seq
+        side = None
+        if stack:
+            # stacked tees: the consumers' tee reads a derived iterator that pulls from one branch of another tee of the
+            # source (each tee() must have its own state and lock); the other branch of the inner tee is read as well
+            inner = ait.tee(Source() if c["async_src"] else list(seq), 2)
+            side = inner[1]
+            if stack == "pairwise":
+                src2 = ait.pairwise(inner[0])
+                want = [tuple(p) for p in itertools.pairwise(seq)]
+            else:
+                async def through(it):
+                    async for x in it:
+                        yield x
+                src2 = through(inner[0])
+            its = list(ait.tee(src2, n))
+            self.faults["stacked_tee"] += 1
+        else:
+            its = list(ait.tee(Source() if c["async_src"] else list(seq), n))
         results = {}
         extra = {}
 
@@ -293,14 +312,20 @@ class TeeRun:
         async with create_task_group() as tg:
             for ci, it in enumerate(its):
                 tg.start_soon(consumer, ci, it, c["delays"][ci], c["fork"][ci])
+            if side is not None:
+                tg.start_soon(consumer, "side", side, [0], None)
+        norm = lambda xs: None if xs is None else [tuple(x) if isinstance(x, (tuple, list)) else x for x in xs]
         for ci in range(n):
-            if results.get(ci) != seq:
-                self.v("tee_incomplete", f"tee consumer {ci} of {n} saw {results.get(ci)} instead of {seq}")
+            if norm(results.get(ci)) != want:
+                self.v("tee_incomplete", f"tee consumer {ci} of {n} saw {results.get(ci)} instead of {want}"
+                                         + (f" (tee over {stack}(branch of an inner tee))" if stack else ""))
+        if side is not None and results.get("side") != seq:
+            self.v("tee_incomplete", f"the second branch of the inner tee saw {results.get('side')} instead of {seq}")
         for ci, (pos, child) in extra.items():
-            rest = [x async for x in child]
-            if rest != seq[pos:]:
-                self.v("tee_incomplete", f"a tee taken from consumer {ci} after {pos} elements saw {rest} instead of {seq[pos:]}")
-        if c["async_src"] and n:
+            rest = norm([x async for x in child])
+            if rest != want[pos:]:
+                self.v("tee_incomplete", f"a tee taken from consumer {ci} after {pos} elements saw {rest} instead of {want[pos:]}")
+        if c["async_src"] and (n or side is not None):
             if calls[0] != len(seq) + 1:
                 self.v("tee_source_calls", f"the source's __anext__ was called {calls[0]} times for {len(seq)} elements and "
                                            f"{n} consumers (expected once per element plus once for exhaustion)")
@@ -379,7 +404,7 @@ class IterCheck:
                 "delays": [[rng.choice([None, 0, 0, 0.125, 0.25, 0.5]) for _ in range(ln + 2)] for _ in range(n)],
                 "fork": [rng.choice([None, None, 0, 1, 2]) for _ in range(n)],
                 "eager": rng.random() < 0.3, "p_stall": rng.choice([0, 0, 0.05]), "p_late": rng.choice([0, 0, 0.2]),
-                "sched_seed": rng.getrandbits(32)}
+                "sched_seed": rng.getrandbits(32), "stack": rng.choice([None, None, None, "pairwise", "through"])}
 
     def gen_case(self, seed, tier):
         return self.gen_case_indexed(10**9, seed, tier)
